@@ -12,7 +12,7 @@
    refinement (`_chiral_morgan`) is not covered by theorems: search in harness/checks/C01.py. *)
 From Coq Require Import ZArith List Bool Permutation Sorting.Sorted String.
 From Model Require Import PyBase PyHash Graph Morgan Stereo StereoRegistry Writer ChiralMorgan.
-From Proofs Require Import MorganProofs WriterInvProofs WriterStereoExt BfsExt BfsExt2 TraverseOrderExt InsertionOrderExt InsertionOrderExt2 ChiralMorganProofs StereoProofs StereoOrderExt StereoOrderExt2 RegistryRemapExt EnvLaws CtMapOrderExt AllStereoExt SameStereo EqHashExt ChiralDiscreteExt ChiralOrderExt MorganChargeRefuted.
+From Proofs Require Import MorganProofs WriterInvProofs WriterStereoExt BfsExt BfsExt2 TraverseOrderExt InsertionOrderExt InsertionOrderExt2 ChiralMorganProofs StereoProofs StereoOrderExt StereoOrderExt2 RegistryRemapExt EnvLaws CtMapOrderExt AllStereoExt SameStereo EqHashExt ChiralDiscreteExt ChiralOrderExt MorganChargeRefuted ChiralReinsertExt ChiralReinsertBool.
 Import ListNotations.
 Open Scope Z_scope.
 
@@ -136,58 +136,58 @@ Print Assumptions C01_sorted_by_key_canonical.
 
 (* `start = min(atoms_set, key=mod_weights_start)`: with weights injective on the atoms neither the tie-break priority
    (the stand-in for CPython's set iteration order) nor the order in which the candidates are listed matters.
-   _partial: one step of smiles_invariant_discrete (missing: BFS labels, DFS bookkeeping, closure numbers, tokens, stereo marks) *)
-Theorem C01_smiles_invariant_discrete_partial_start : forall (w : Z -> Z) (o : opts) (all : list Z), inj_on all w ->
+   one step of the full theorem C01_smiles_invariant_discrete (stated below) *)
+Theorem C01_smiles_invariant_discrete_step_start : forall (w : Z -> Z) (o : opts) (all : list Z), inj_on all w ->
   forall (tb tb' : Z -> Z) (l l' : list Z), incl l all -> Permutation l l' ->
   min_by (key_start w tb o all) l = min_by (key_start w tb' o all) l'.
 Proof. exact start_atom_weights_only. Qed.
-Print Assumptions C01_smiles_invariant_discrete_partial_start.
+Print Assumptions C01_smiles_invariant_discrete_step_start.
 
 (* `sorted(bonds[child].keys() - {parent}, key=mod_weights)`: the same for the children of every DFS node *)
-Theorem C01_smiles_invariant_discrete_partial_children : forall (w : Z -> Z) (o : opts) (all : list Z), inj_on all w ->
+Theorem C01_smiles_invariant_discrete_step_children : forall (w : Z -> Z) (o : opts) (all : list Z), inj_on all w ->
   forall (tb tb' : Z -> Z) (seen : list (Z * Z)) (l l' : list Z), incl l all -> Permutation l l' ->
   sort_by (key_child w tb o all seen) l = sort_by (key_child w tb' o all seen) l'.
 Proof. exact children_order_weights_only. Qed.
-Print Assumptions C01_smiles_invariant_discrete_partial_children.
+Print Assumptions C01_smiles_invariant_discrete_step_children.
 
 (* since fix 2e3e6bb the neighbours of atom p are sorted by key_child_at g .. p = (weight part, order of the bond to p, tb);
    key_child above is the weight part followed by tb.  With injective weights the bond order is never reached: the children
    order does not depend on the molecule's bond orders, the parent, the tie-break priority or the set iteration order *)
-Theorem C01_smiles_invariant_discrete_partial_children_at : forall (w : Z -> Z) (o : opts) (all : list Z), inj_on all w ->
+Theorem C01_smiles_invariant_discrete_step_children_at : forall (w : Z -> Z) (o : opts) (all : list Z), inj_on all w ->
   forall (g g2 : mol) (tb tb' : Z -> Z) (seen : list (Z * Z)) (p p2 : Z) (l l' : list Z), incl l all -> Permutation l l' ->
   sort_by (key_child_at g w tb o all seen p) l = sort_by (key_child_at g2 w tb' o all seen p2) l'.
 Proof. exact children_at_order_weights_only. Qed.
-Print Assumptions C01_smiles_invariant_discrete_partial_children_at.
+Print Assumptions C01_smiles_invariant_discrete_step_children_at.
 
-Theorem C01_smiles_invariant_discrete_partial_children_at_equivariant :
+Theorem C01_smiles_invariant_discrete_step_children_at_equivariant :
   forall (w w' : Z -> Z) (o : opts) (all : list Z) (s : Z -> Z),
   inj_on all w -> (forall n, In n all -> w' (s n) = w n) ->
   forall (g g' : mol) (p p' : Z) (tb tb' : Z -> Z) (seen seen' : list (Z * Z)) (l l' : list Z), incl l all -> Permutation (map s l) l' ->
   (forall n, In n all -> zget seen' (s n) = zget seen n) ->
   sort_by (key_child_at g' w' tb' o (map s all) seen' p') l' = map s (sort_by (key_child_at g w tb o all seen p) l).
 Proof. exact children_at_order_equivariant. Qed.
-Print Assumptions C01_smiles_invariant_discrete_partial_children_at_equivariant.
+Print Assumptions C01_smiles_invariant_discrete_step_children_at_equivariant.
 
 (* renumbering (s is injective on the atoms as a consequence of the two hypotheses): the start atom of the renumbered
    molecule is the image of the start atom ... *)
-Theorem C01_smiles_invariant_discrete_partial_start_equivariant :
+Theorem C01_smiles_invariant_discrete_step_start_equivariant :
   forall (w w' : Z -> Z) (o : opts) (all : list Z) (s : Z -> Z),
   inj_on all w -> (forall n, In n all -> w' (s n) = w n) ->
   forall (tb tb' : Z -> Z) (l l' : list Z), incl l all -> Permutation (map s l) l' ->
   min_by (key_start w' tb' o (map s all)) l' = option_map s (min_by (key_start w tb o all) l).
 Proof. exact start_atom_equivariant. Qed.
-Print Assumptions C01_smiles_invariant_discrete_partial_start_equivariant.
+Print Assumptions C01_smiles_invariant_discrete_step_start_equivariant.
 
 (* ... and the children of every DFS node are visited in the image of the original order (seen' = BFS labels of the
    renumbered molecule) *)
-Theorem C01_smiles_invariant_discrete_partial_children_equivariant :
+Theorem C01_smiles_invariant_discrete_step_children_equivariant :
   forall (w w' : Z -> Z) (o : opts) (all : list Z) (s : Z -> Z),
   inj_on all w -> (forall n, In n all -> w' (s n) = w n) ->
   forall (tb tb' : Z -> Z) (seen seen' : list (Z * Z)) (l l' : list Z), incl l all -> Permutation (map s l) l' ->
   (forall n, In n all -> zget seen' (s n) = zget seen n) ->
   sort_by (key_child w' tb' o (map s all) seen') l' = map s (sort_by (key_child w tb o all seen) l).
 Proof. exact children_order_equivariant. Qed.
-Print Assumptions C01_smiles_invariant_discrete_partial_children_equivariant.
+Print Assumptions C01_smiles_invariant_discrete_step_children_equivariant.
 
 (* non-vacuity of the hypotheses above: four atoms, injective weights, renumbering n -> 2n+10, other tie-breaks and orders *)
 Theorem C01_writer_keys_example :
@@ -223,29 +223,29 @@ Print Assumptions C01_canonical_children_structure_only.
 
 (* ---- renumbering that keeps the insertion orders (remap()), any tie-break priorities, injective weights ---- *)
 (* the BFS labels *)
-Theorem C01_smiles_invariant_discrete_partial_bfs : forall (s : Z -> Z), (forall x y, s x = s y -> x = y) ->
+Theorem C01_smiles_invariant_discrete_step_bfs : forall (s : Z -> Z), (forall x y, s x = s y -> x = y) ->
   forall (g : mol) (fuel : nat) (queue seen : list (Z * Z)),
   bfs (ren_mol s g) fuel (ren_labels s queue) (ren_labels s seen) = ren_labels s (bfs g fuel queue seen).
 Proof. exact bfs_ren. Qed.
-Print Assumptions C01_smiles_invariant_discrete_partial_bfs.
+Print Assumptions C01_smiles_invariant_discrete_step_bfs.
 
 (* the `while stack:` loop of the DFS: spanning tree, predecessor table, ring-closure pairs and their numbers *)
-Theorem C01_smiles_invariant_discrete_partial_dfs : forall (s : Z -> Z), (forall x y, s x = s y -> x = y) ->
+Theorem C01_smiles_invariant_discrete_step_dfs : forall (s : Z -> Z), (forall x y, s x = s y -> x = y) ->
   forall (g : mol) (all : list Z) (key key' : Z -> Z -> list Z), (forall n, incl (nbr_ids g n) all) ->
   (forall p l, incl l all -> sort_by (key' (s p)) (map s l) = map s (sort_by (key p) l)) ->
   forall (fuel : nat) (st : dfs_st),
   iter_opt fuel (dfs_step (ren_mol s g) key') (ren_dfs s st) = option_map (ren_dfs s) (iter_opt fuel (dfs_step g key) st).
 Proof. exact dfs_ren. Qed.
-Print Assumptions C01_smiles_invariant_discrete_partial_dfs.
+Print Assumptions C01_smiles_invariant_discrete_step_dfs.
 
 (* one component: start atom, BFS labels, DFS.  The atom set of the renumbered side may be listed in any order *)
-Theorem C01_smiles_invariant_discrete_partial_traverse : forall (g : mol) (s w w' tb tb' : Z -> Z) (o : opts),
+Theorem C01_smiles_invariant_discrete_step_traverse : forall (g : mol) (s w w' tb tb' : Z -> Z) (o : opts),
   wf_mol g = true -> (forall x y, s x = s y -> x = y) -> inj_on (ids g) w -> (forall n, In n (ids g) -> w' (s n) = w n) ->
   forall st st' : wstate, incl (ws_atoms st) (ids g) -> Permutation (map s (ws_atoms st)) (ws_atoms st') ->
   ws_seen st' = ren_labels s (ws_seen st) -> ws_cycle st' = ws_cycle st ->
   traverse (ren_mol s g) w' tb' o (map s (ids g)) st' = ren_tres s (traverse g w tb o (ids g) st).
 Proof. exact traverse_ren. Qed.
-Print Assumptions C01_smiles_invariant_discrete_partial_traverse.
+Print Assumptions C01_smiles_invariant_discrete_step_traverse.
 
 (* non-vacuity: ethanol renumbered n -> 10 - n with the ranks of the Morgan model (CPython hash) as weights *)
 Theorem C01_traverse_example :
@@ -260,22 +260,22 @@ Proof. exact traverse_example. Qed.
 Print Assumptions C01_traverse_example.
 
 (* flattening the DFS tree: the token list (atoms, bonds, parentheses) of the renumbered traversal is the renamed list *)
-Theorem C01_smiles_invariant_discrete_partial_flatten : forall (s : Z -> Z), (forall x y, s x = s y -> x = y) ->
+Theorem C01_smiles_invariant_discrete_step_flatten : forall (s : Z -> Z), (forall x y, s x = s y -> x = y) ->
   forall (g : mol) (t : traversal), flatten (ren_mol s g) (ren_traversal s t) = ren_toks s (flatten g t).
 Proof. exact flatten_ren. Qed.
-Print Assumptions C01_smiles_invariant_discrete_partial_flatten.
+Print Assumptions C01_smiles_invariant_discrete_step_flatten.
 
 (* start atom + BFS + DFS + flattening of one component: same branch structure, atoms written in the image order.
    Missing for the full statement: closure numbers, neighbour lists for stereo, atom / bond tokens, stereo marks, several
    components in sequence, and renumberings that also change the insertion order *)
-Theorem C01_smiles_invariant_discrete_partial_component_tokens : forall (g : mol) (s w w' tb tb' : Z -> Z) (o : opts),
+Theorem C01_smiles_invariant_discrete_step_component_tokens : forall (g : mol) (s w w' tb tb' : Z -> Z) (o : opts),
   wf_mol g = true -> (forall x y, s x = s y -> x = y) -> inj_on (ids g) w -> (forall n, In n (ids g) -> w' (s n) = w n) ->
   forall st st' : wstate, incl (ws_atoms st) (ids g) -> Permutation (map s (ws_atoms st)) (ws_atoms st') ->
   ws_seen st' = ren_labels s (ws_seen st) -> ws_cycle st' = ws_cycle st ->
   component_tokens (ren_mol s g) w' tb' o st' = ren_toks s (component_tokens g w tb o st) /\
   (forall l, tok_atoms (map (ren_tok s) l) = map s (tok_atoms l)).
 Proof. exact component_tokens_ren_order. Qed.
-Print Assumptions C01_smiles_invariant_discrete_partial_component_tokens.
+Print Assumptions C01_smiles_invariant_discrete_step_component_tokens.
 
 Theorem C01_component_tokens_example :
   component_tokens ex_g (lbl exw_l) (fun n => n) default_opts exw_st = Ok [TAtom 1; TBond 1 2; TAtom 2; TBond 2 3; TAtom 3] /\
@@ -286,30 +286,30 @@ Print Assumptions C01_component_tokens_example.
 
 (* ---- closure numbers, neighbour lists, emission ---- *)
 (* casted_cycles and the heap of free closure numbers after a component never depend on the atom numbers *)
-Theorem C01_smiles_invariant_discrete_partial_closure_numbers : forall (s : Z -> Z), (forall x y, s x = s y -> x = y) ->
+Theorem C01_smiles_invariant_discrete_step_closure_numbers : forall (s : Z -> Z), (forall x y, s x = s y -> x = y) ->
   forall (tokens : list (Z * list (Z * Z))) (ro todo casted : list (Z * Z)) (heap : list Z),
   number_atoms (ren_tokens s tokens) (ren_labels s ro) (ren_labels s todo) casted heap = number_atoms tokens ro todo casted heap.
 Proof. exact number_atoms_ren. Qed.
-Print Assumptions C01_smiles_invariant_discrete_partial_closure_numbers.
+Print Assumptions C01_smiles_invariant_discrete_step_closure_numbers.
 
-Theorem C01_smiles_invariant_discrete_partial_ring_positions : forall (s : Z -> Z), (forall x y, s x = s y -> x = y) ->
+Theorem C01_smiles_invariant_discrete_step_ring_positions : forall (s : Z -> Z), (forall x y, s x = s y -> x = y) ->
   forall (tokens : list (Z * list (Z * Z))) (smi : list tok) (i : Z),
   ring_positions (ren_tokens s tokens) (map (ren_tok s) smi) i = ren_labels s (ring_positions tokens smi i).
 Proof. exact ring_positions_ren. Qed.
-Print Assumptions C01_smiles_invariant_discrete_partial_ring_positions.
+Print Assumptions C01_smiles_invariant_discrete_step_ring_positions.
 
 (* closure lists in closure-number order and the neighbour lists `visited` the stereo marks are computed from *)
-Theorem C01_smiles_invariant_discrete_partial_neighbour_lists : forall (s : Z -> Z), (forall x y, s x = s y -> x = y) ->
+Theorem C01_smiles_invariant_discrete_step_neighbour_lists : forall (s : Z -> Z), (forall x y, s x = s y -> x = y) ->
   forall (smi : list tok) (casted : list (Z * Z)) (edges : list (Z * list Z)) (tokens : list (Z * list (Z * Z))) (visited : adjacency),
   order_neighbours (map (ren_tok s) smi) casted (ren_vis s edges) (ren_tokens s tokens) (ren_vis s visited) =
   (ren_tokens s (fst (order_neighbours smi casted edges tokens visited)),
    ren_vis s (snd (order_neighbours smi casted edges tokens visited))).
 Proof. exact order_neighbours_ren. Qed.
-Print Assumptions C01_smiles_invariant_discrete_partial_neighbour_lists.
+Print Assumptions C01_smiles_invariant_discrete_step_neighbour_lists.
 
 (* the last loop of a component, CONDITIONAL on the agreement of the token functions (fat = _format_atom, fa = _format_bond
    of the two sides) on the tokens that are written: same strings, order mapped by s *)
-Theorem C01_smiles_invariant_discrete_partial_emit : forall (s : Z -> Z), (forall x y, s x = s y -> x = y) ->
+Theorem C01_smiles_invariant_discrete_step_emit : forall (s : Z -> Z), (forall x y, s x = s y -> x = y) ->
   forall (o : opts) (fa fa' : Z -> Z -> pyres string) (fat fat' : Z -> pyres string)
          (smi : list tok) (tokens : list (Z * list (Z * Z))) (casted : list (Z * Z)),
   (forall n, In (TAtom n) smi -> fat' (s n) = fat n) ->
@@ -318,7 +318,7 @@ Theorem C01_smiles_invariant_discrete_partial_emit : forall (s : Z -> Z), (foral
   forall vb : list (Z * Z),
   emit o fat' fa' (map (ren_tok s) smi) (ren_tokens s tokens) casted (ren_pairs s vb) = ren_emit s (emit o fat fa smi tokens casted vb).
 Proof. exact emit_ren. Qed.
-Print Assumptions C01_smiles_invariant_discrete_partial_emit.
+Print Assumptions C01_smiles_invariant_discrete_step_emit.
 
 Theorem C01_spelling_ignores_numbers : forall (s : Z -> Z) (l : list otok), spell (map (ren_otok s) l) = spell l.
 Proof. exact spell_ren. Qed.
@@ -341,7 +341,7 @@ Print Assumptions C01_emit_example.
    the agreement of the atom / bond token functions of the two sides (hypotheses 5 and 6: `_format_atom` incl. stereo marks,
    `_format_bond` incl. the cis/trans map); everything else of `_smiles` (start atoms, BFS, DFS, flattening, closure numbers,
    neighbour lists, emission, the loop over components, the CXSMILES suffix) is carried through the renumbering *)
-Theorem C01_smiles_invariant_discrete_partial_text :
+Theorem C01_smiles_invariant_discrete_step_text :
   forall (g : mol) (s w w' tb tb' : Z -> Z) (o : opts) (tabs tabs' : stabs),
   wf_mol g = true -> (forall x y, s x = s y -> x = y) -> inj_on (ids g) w -> (forall n, In n (ids g) -> w' (s n) = w n) ->
   (forall visited n, format_atom (ren_mol s g) o tabs' (s n) (ren_vis s visited) = format_atom g o tabs n visited) ->
@@ -349,7 +349,7 @@ Theorem C01_smiles_invariant_discrete_partial_text :
                        format_bond g o (ct_map g tabs visited) n m) ->
   smiles_text (ren_mol s g) w' tb' o tabs' = map_order s (smiles_text g w tb o tabs).
 Proof. exact smiles_text_ren. Qed.
-Print Assumptions C01_smiles_invariant_discrete_partial_text.
+Print Assumptions C01_smiles_invariant_discrete_step_text.
 
 (* unconditional when no stereo mark and no atom-map number is written: format(mol, '!s') of ANY molecule (also one with stereo
    labels), any tie-break priorities, any stereo registries: same text, written order mapped by s *)
@@ -453,13 +453,13 @@ Proof. exact bfs_spec_unique. Qed.
 Print Assumptions C01_bfs_spec_unique.
 
 (* hence the BFS labels do not depend on the order in which atoms, adjacency rows and neighbours were inserted.
-   _partial towards insertion-order invariance of the string: the DFS / emission under permuted neighbour lists and the parity
+   a step towards insertion-order invariance of the string: the DFS / emission under permuted neighbour lists and the parity
    of the stereo signs are not carried through yet; later components (BFS started on a non-empty `seen`) are not covered *)
-Theorem C01_smiles_invariant_discrete_partial_bfs_order : forall (g1 g2 : mol) (start : Z),
+Theorem C01_smiles_invariant_discrete_step_bfs_order : forall (g1 g2 : mol) (start : Z),
   wf_mol g1 = true -> wf_mol g2 = true -> mol_perm g1 g2 -> In start (ids g1) ->
   forall x, zget (bfs g1 (S (n_atoms g1)) [(start, 1)] [(start, 0)]) x = zget (bfs g2 (S (n_atoms g2)) [(start, 1)] [(start, 0)]) x.
 Proof. exact bfs_order_independent_wf. Qed.
-Print Assumptions C01_smiles_invariant_discrete_partial_bfs_order.
+Print Assumptions C01_smiles_invariant_discrete_step_bfs_order.
 
 Theorem C01_bfs_example :
   wf_mol exb_g1 = true /\ wf_mol exb_g2 = true /\ mol_perm exb_g1 exb_g2 /\ In 1 (ids exb_g1) /\
@@ -470,17 +470,17 @@ Print Assumptions C01_bfs_example.
 
 (* ---- renumbering AND re-insertion (atoms, adjacency rows, neighbours listed in any other order): the first component ---- *)
 (* every DFS step when the neighbour lists of g' are permutations of the renamed neighbour lists of g *)
-Theorem C01_smiles_invariant_discrete_partial_dfs_insertion_order : forall (s : Z -> Z), (forall x y, s x = s y -> x = y) ->
+Theorem C01_smiles_invariant_discrete_step_dfs_insertion_order : forall (s : Z -> Z), (forall x y, s x = s y -> x = y) ->
   forall (g g' : mol) (all : list Z) (key key' : Z -> Z -> list Z), (forall n, incl (nbr_ids g n) all) ->
   (forall n, Permutation (map s (nbr_ids g n)) (nbr_ids g' (s n))) ->
   (forall p l l', incl l all -> Permutation (map s l) l' -> sort_by (key' (s p)) l' = map s (sort_by (key p) l)) ->
   forall (fuel : nat) (st : dfs_st),
   iter_opt fuel (dfs_step g' key') (ren_dfs s st) = option_map (ren_dfs s) (iter_opt fuel (dfs_step g key) st).
 Proof. exact dfs_perm. Qed.
-Print Assumptions C01_smiles_invariant_discrete_partial_dfs_insertion_order.
+Print Assumptions C01_smiles_invariant_discrete_step_dfs_insertion_order.
 
 (* start atom, BFS labels (pointwise) and DFS result of the first component *)
-Theorem C01_smiles_invariant_discrete_partial_traverse_insertion_order :
+Theorem C01_smiles_invariant_discrete_step_traverse_insertion_order :
   forall (g g' : mol) (s w w' tb tb' : Z -> Z) (o : opts),
   wf_mol g = true -> wf_mol g' = true -> (forall x y, s x = s y -> x = y) -> mol_perm (ren_mol s g) g' ->
   inj_on (ids g) w -> (forall n, In n (ids g) -> w' (s n) = w n) ->
@@ -488,7 +488,7 @@ Theorem C01_smiles_invariant_discrete_partial_traverse_insertion_order :
   ws_seen st = [] -> ws_seen st' = [] -> ws_cycle st' = ws_cycle st ->
   trav_rel s (traverse g w tb o (ids g) st) (traverse g' w' tb' o (ids g') st').
 Proof. exact traverse_first_perm. Qed.
-Print Assumptions C01_smiles_invariant_discrete_partial_traverse_insertion_order.
+Print Assumptions C01_smiles_invariant_discrete_step_traverse_insertion_order.
 
 (* with the weights the Morgan model computes: when the classes of atoms_order are discrete, the token list of the first component
    (atoms, bonds, parentheses: branch structure and the order in which the atoms are written; the whole molecule when it is
@@ -523,16 +523,16 @@ Print Assumptions C01_hybridization_order_independent.
 
 (* DESIGN appendix A smiles_invariant_discrete for format(mol, '!s') and every option set without stereo marks / atom-map
    numbers: g' is g renumbered by s AND re-inserted in any order; injective weights; any tie-break priorities; any registries.
-   _partial: the molecule must be written as one component ([single_component]: after the first component no atom is left),
+   special case of C01_smiles_invariant_discrete: the molecule must be written as one component ([single_component]: after the first component no atom is left),
    because the BFS theorem covers a BFS started on an empty `seen`; stereo marks under re-insertion need the parity lemmas *)
-Theorem C01_smiles_invariant_discrete_nostereo_insertion_order_partial :
+Theorem C01_smiles_invariant_discrete_nostereo_insertion_order_case :
   forall (g g' : mol) (s w w' tb tb' : Z -> Z) (o : opts) (tabs tabs' : stabs),
   wf_mol g = true -> wf_mol g' = true -> (forall x y, s x = s y -> x = y) -> mol_perm (ren_mol s g) g' ->
   inj_on (ids g) w -> (forall n, In n (ids g) -> w' (s n) = w n) -> o_stereo o = false -> o_mapping o = false ->
   single_component g w tb o tabs ->
   smiles_text g' w' tb' o tabs' = map_order s (smiles_text g w tb o tabs).
 Proof. exact smiles_text_single_component_perm. Qed.
-Print Assumptions C01_smiles_invariant_discrete_nostereo_insertion_order_partial.
+Print Assumptions C01_smiles_invariant_discrete_nostereo_insertion_order_case.
 
 (* end to end with the Morgan model, every hash function: discrete classes of atoms_order *)
 Theorem C01_canonical_nostereo_string_structure_only :
@@ -636,8 +636,8 @@ Print Assumptions C01_translate_th_reorder_any.
 
 (* strings with atom stereo marks under ANY renumbering and ANY insertion order: g and g' agree after the stereo fields are erased
    ([strip]); "the same stereoisomer" = the atom marks of the two labelled molecules agree for every neighbour table (hypothesis 8);
-   no cis / trans labels.  _partial: the cis/trans map under insertion-order changes is not carried through *)
-Theorem C01_smiles_invariant_discrete_atom_stereo_insertion_order_partial :
+   no cis / trans labels.  special case of C01_smiles_invariant_discrete: the cis/trans map under insertion-order changes is not carried through here *)
+Theorem C01_smiles_invariant_discrete_atom_stereo_insertion_order_case :
   forall (g g' : mol) (s w w' tb tb' : Z -> Z) (o : opts) (tabs tabs' : stabs),
   wf_mol (strip g) = true -> wf_mol (strip g') = true -> (forall x y, s x = s y -> x = y) ->
   mol_perm (ren_mol s (strip g)) (strip g') -> inj_on (ids g) w -> (forall n, In n (ids g) -> w' (s n) = w n) -> o_mapping o = false ->
@@ -646,19 +646,19 @@ Theorem C01_smiles_invariant_discrete_atom_stereo_insertion_order_partial :
   stereo_bond_atoms g = [] -> stereo_bond_atoms g' = [] ->
   smiles_text g' w' tb' o tabs' = map_order s (smiles_text g w tb o tabs).
 Proof. exact smiles_text_atom_stereo_perm. Qed.
-Print Assumptions C01_smiles_invariant_discrete_atom_stereo_insertion_order_partial.
+Print Assumptions C01_smiles_invariant_discrete_atom_stereo_insertion_order_case.
 
 (* hypothesis 8 discharged by the parity law: every labelled atom is a tetrahedron with four listed neighbours whose registry entry
    in g' lists the renamed neighbours in another order and whose sign was re-expressed by the parity of that re-ordering (what
-   add_atom_stereo does).  _partial: centres with an implicit / explicit hydrogen, allenes and cis/trans labels are not covered *)
-Theorem C01_smiles_invariant_discrete_tetrahedral_insertion_order_partial :
+   add_atom_stereo does).  special case of C01_smiles_invariant_discrete: centres with an implicit / explicit hydrogen, allenes and cis/trans labels are not covered here *)
+Theorem C01_smiles_invariant_discrete_tetrahedral_insertion_order_case :
   forall (g g' : mol) (s w w' tb tb' : Z -> Z) (o : opts) (tabs tabs' : stabs),
   wf_mol (strip g) = true -> wf_mol (strip g') = true -> (forall x y, s x = s y -> x = y) ->
   mol_perm (ren_mol s (strip g)) (strip g') -> inj_on (ids g) w -> (forall n, In n (ids g) -> w' (s n) = w n) -> o_mapping o = false ->
   stereo_atoms_reordered g g' s tabs tabs' -> stereo_bond_atoms g = [] -> stereo_bond_atoms g' = [] ->
   smiles_text g' w' tb' o tabs' = map_order s (smiles_text g w tb o tabs).
 Proof. exact smiles_invariant_discrete_tetrahedral_insertion_order. Qed.
-Print Assumptions C01_smiles_invariant_discrete_tetrahedral_insertion_order_partial.
+Print Assumptions C01_smiles_invariant_discrete_tetrahedral_insertion_order_case.
 
 (* non-vacuity: CFClBrI renumbered n -> 10 - n, the neighbours of the centre re-inserted with the first two exchanged: the stored
    sign flips, the string is the same *)
@@ -681,15 +681,15 @@ Print Assumptions C01_translate_th_reorder_any3.
 
 (* DESIGN appendix A smiles_invariant_discrete with tetrahedral marks ([C@], [C@H], explicit [H]) under ANY renumbering and ANY
    insertion order, any number of components, injective weights, any tie-breaks: the labels of the re-inserted molecule are the old
-   labels re-expressed for the new neighbour orders by permutation parity.  _partial: no allene and no cis/trans labels *)
-Theorem C01_smiles_invariant_discrete_tetrahedral_insertion_order2_partial :
+   labels re-expressed for the new neighbour orders by permutation parity.  special case of C01_smiles_invariant_discrete: no allene and no cis/trans labels here *)
+Theorem C01_smiles_invariant_discrete_tetrahedral_insertion_order2_case :
   forall (g g' : mol) (s w w' tb tb' : Z -> Z) (o : opts) (tabs tabs' : stabs),
   wf_mol (strip g) = true -> wf_mol (strip g') = true -> (forall x y, s x = s y -> x = y) ->
   mol_perm (ren_mol s (strip g)) (strip g') -> inj_on (ids g) w -> (forall n, In n (ids g) -> w' (s n) = w n) -> o_mapping o = false ->
   stereo_atoms_reordered2 g g' s tabs tabs' -> stereo_bond_atoms g = [] -> stereo_bond_atoms g' = [] ->
   smiles_text g' w' tb' o tabs' = map_order s (smiles_text g w tb o tabs).
 Proof. exact smiles_invariant_discrete_tetrahedral_insertion_order2. Qed.
-Print Assumptions C01_smiles_invariant_discrete_tetrahedral_insertion_order2_partial.
+Print Assumptions C01_smiles_invariant_discrete_tetrahedral_insertion_order2_case.
 
 Theorem C01_tetrahedral_h_insertion_order_example :
   wf_mol (strip exh_g) = true /\ wf_mol (strip exh_g') = true /\ (forall x y, ext_s x = ext_s y -> x = y) /\
@@ -804,7 +804,7 @@ Print Assumptions C01_chiral_morgan_order_independent_discrete.
    atoms_order of g are discrete.  Then the Morgan model gives g' the renamed weights, `_chiral_morgan` returns these weights on both
    sides whatever the iteration orders of its stereo sets, and the canonical strings with all stereo marks are identical (written
    order mapped by s): the canonical string is a function of the structure alone.
-   _partial with respect to the coordinator's goal: discreteness is required of the CONSTITUTIONAL classes (atoms_order); molecules
+   special case: discreteness is required of the CONSTITUTIONAL classes (atoms_order); for molecules whose classes become discrete through the stereo refinement see C01_canonical_string_two_descriptions; molecules
    whose classes only become discrete through the stereo refinement (where group[0] / flip-half could matter) are not covered *)
 Theorem C01_canonical_string_structure_only :
   forall (h : list Z -> Z) (ring ring' : Z -> bool) (g g' : mol) (s tb tb' : Z -> Z) (o : opts)
@@ -931,3 +931,69 @@ Theorem C01_atoms_order_charge_tie_refuted :
   atoms_order hash_ztuple (fun _ => false) chg_g = Ok [(1, 1); (2, 1)].
 Proof. exact atoms_order_charge_tie. Qed.
 Print Assumptions C01_atoms_order_charge_tie_refuted.
+
+(* TWO DESCRIPTIONS of one labelled structure with the same atom numbers: g1 has other insertion orders of atoms and bonds, its
+   registries list the neighbours of a centre in another order (sel order q) with the stored sign re-expressed by the parity of q, the
+   substituents of an allene / double-bond end in the other order or the ends exchanged (var_env) with the sign re-expressed, terminal
+   pairs of double-bond systems possibly the other way round (flipc), and the three stereo sets are iterated in any order.  If the
+   run on g is uniform (C01_chiral_morgan_order_independent) and a pair listed the other way round has terminals of different
+   classes whenever its group is processed (asym_run), then `_chiral_morgan` gives the same dict up to the order of its items and
+   the same `_morgan` inputs up to item order, for every hash function.  The weight of an atom is therefore a function of the
+   labelled structure - no longer an input ("given the weights") of the string theorem below. *)
+Theorem C01_chiral_morgan_two_descriptions :
+  forall (h : list Z -> Z) (g g1 : mol) (tabs tabs1 : cmtabs) (flipc : Z * Z -> bool) (ao ao1 : labels) (ord ord1 : cmorders),
+  wf_mol (strip g) = true -> mol_perm (strip g) (strip g1) ->
+  (forall x, cm_isH g x = false) -> (forall x, cm_isH g1 x = false) -> has_stereo_labels g1 = has_stereo_labels g ->
+  (forall n, th_rel g g1 tabs tabs1 n) -> (forall c, al_rel g g1 tabs tabs1 c) -> (forall p, In p (o_ct ord) -> ct_rel g g1 tabs tabs1 flipc p) ->
+  (forall p q, In p (o_ct ord) -> In q (o_ct ord) -> phi flipc p = phi flipc q -> p = q) ->
+  NoDup (keys ao) -> Permutation ao ao1 ->
+  Permutation (o_atoms ord) (o_atoms ord1) -> Permutation (map (phi flipc) (o_ct ord)) (o_ct ord1) -> Permutation (o_al ord) (o_al ord1) ->
+  uniform_run h g tabs (diff_fuel ord) ao (o_atoms ord) (o_ct ord) (o_al ord) ->
+  asym_run h g tabs flipc (diff_fuel ord) ao (o_atoms ord) (o_ct ord) (o_al ord) ->
+  cmres_perm (chiral_morgan h g tabs ao ord) (chiral_morgan h g1 tabs1 ao1 ord1).
+Proof. exact chiral_morgan_two_descriptions. Qed.
+Print Assumptions C01_chiral_morgan_two_descriptions.
+
+(* the same with every hypothesis except mol_perm as a computation (two_desc_b: what the check evaluates on real rebuilt molecules) *)
+Theorem C01_chiral_morgan_two_descriptions_decidable :
+  forall (h : list Z -> Z) (g g1 : mol) (tabs tabs1 : cmtabs) (flipc : Z * Z -> bool) (ao ao1 : labels) (ord ord1 : cmorders),
+  mol_perm (strip g) (strip g1) -> two_desc_b h g g1 tabs tabs1 flipc ao ao1 ord ord1 = true ->
+  cmres_perm (chiral_morgan h g tabs ao ord) (chiral_morgan h g1 tabs1 ao1 ord1).
+Proof. exact chiral_morgan_two_descriptions_b. Qed.
+Print Assumptions C01_chiral_morgan_two_descriptions_decidable.
+
+(* END TO END, for every hash function, for molecules whose classes become discrete THROUGH the stereo refinement: any renumbering
+   + any insertion order + re-listed registries + any set iteration orders.  g1 = the other description with the numbers of g, the
+   copy is ren_mol s g1.  `_chiral_morgan` of the copy gives the renamed weights of g (as a function of the atom) and the canonical
+   strings with all stereo marks are identical, the written order mapped by s.  (Restrictions: no explicit hydrogen atoms, s 0 = 0,
+   no atom-map output, uniform run = no flip-half group.) *)
+Theorem C01_canonical_string_two_descriptions :
+  forall (h : list Z -> Z) (ring ring' : Z -> bool) (g g1 : mol) (s tb tb' : Z -> Z) (o : opts)
+         (tabs tabs' : stabs) (ctabs ctabs1 : cmtabs) (flipc : Z * Z -> bool) (flipw : Z -> Z -> bool) (ao ao1 W : labels) (tr : list labels)
+         (ord ord1 : cmorders),
+  mol_perm (strip g) (strip g1) -> wf_mol g1 = true -> wf_mol (strip (ren_mol s g1)) = true ->
+  (forall x y, s x = s y -> x = y) -> s 0 = 0 -> (forall n, In n (ids g1) -> ring' (s n) = ring n) -> o_mapping o = false ->
+  mol_perm (ren_mol s (strip g)) (strip (ren_mol s g1)) ->
+  same_atom_stereo g (ren_mol s g1) s tabs tabs' -> same_ct_stereo g (ren_mol s g1) s tabs tabs' flipw ->
+  atoms_order h ring g = Ok ao -> atoms_order h ring g1 = Ok ao1 ->
+  two_desc_b h g g1 ctabs ctabs1 flipc ao ao1 ord ord1 = true ->
+  chiral_morgan h g ctabs ao ord = Ok (W, tr) -> NoDup (keys W) -> inj_on (ids g) (lbl W) ->
+  exists W1 tr1,
+    chiral_morgan h g1 ctabs1 ao1 ord1 = Ok (W1, tr1) /\ Permutation W W1 /\
+    atoms_order h ring' (ren_mol s g1) = Ok (ren_labels s ao1) /\
+    chiral_morgan h (ren_mol s g1) (ren_cmtabs s ctabs1) (ren_labels s ao1) (ren_cmorders s ord1) = Ok (ren_labels s W1, map (ren_labels s) tr1) /\
+    smiles_text (ren_mol s g1) (lbl (ren_labels s W1)) tb' o tabs' = map_order s (smiles_text g (lbl W) tb o tabs).
+Proof. exact canonical_string_two_descriptions. Qed.
+Print Assumptions C01_canonical_string_two_descriptions.
+
+(* non-vacuity: the meso-like diol and its description with every insertion order reversed and both stored signs re-expressed *)
+Theorem C01_two_descriptions_example :
+  mol_perm (strip exc_g) (strip exc_g1) /\
+  atoms_order hash_ztuple (fun _ => false) exc_g1 = Ok exc_ao1 /\
+  two_desc_b hash_ztuple exc_g exc_g1 exc_tabs exc_tabs1 (fun _ => false) exc_ao exc_ao1 exc_ord exc_ord1 = true /\
+  chiral_morgan hash_ztuple exc_g exc_tabs exc_ao exc_ord =
+    Ok ([(6, 1); (5, 2); (3, 3); (1, 4); (2, 5); (4, 6)], [[(2, -1); (4, 1); (1, 2); (6, 2); (3, 3); (5, 3)]]) /\
+  chiral_morgan hash_ztuple exc_g1 exc_tabs1 exc_ao1 exc_ord1 =
+    Ok ([(6, 1); (5, 2); (3, 3); (1, 4); (2, 5); (4, 6)], [[(4, 1); (2, -1); (6, 2); (1, 2); (5, 3); (3, 3)]]).
+Proof. exact two_descriptions_example. Qed.
+Print Assumptions C01_two_descriptions_example.
